@@ -650,7 +650,8 @@ protected:
 	// convert to native unsigned integer: the value hi + lo truncated toward zero
 	template<typename Unsigned>
 	Unsigned convert_to_unsigned() const noexcept {
-		int64_t h = static_cast<int64_t>(hi);
+		// values in [2^63, 2^64) are in range of uint64_t but not of int64_t
+		uint64_t h = (hi < 9223372036854775808.0) ? static_cast<uint64_t>(static_cast<int64_t>(hi)) : static_cast<uint64_t>(hi);
 		int64_t l = static_cast<int64_t>(lo);
 		// when hi is an integer, a fraction of lo with the opposite sign puts the value on the near side of the integer hi + l
 		double f = lo - std::trunc(lo);
@@ -658,7 +659,7 @@ protected:
 			if (hi > 0.0 && f < 0.0) --l;
 			if (hi < 0.0 && f > 0.0) ++l;
 		}
-		return Unsigned(h + l);
+		return Unsigned(h + static_cast<uint64_t>(l));
 	}
 	
 	// convert to native signed integer: the value hi + lo truncated toward zero
